@@ -93,6 +93,14 @@ Section Plan.
     rewrite track_app, (guards_track _ _ [] Hg).
     apply (guards_track _ 0). apply phase3_guards.
   Qed.
+  Theorem compile_decl_track ts : track [] (compile_decl auth ts) = Some [].
+  Proof.
+    unfold compile_decl. destruct (phase2 auth 0 ts) as [a b] eqn:E. cbn [fst snd].
+    destruct (phase2_ok auth ts 0 a b E) as [_ Hg].
+    rewrite track_app, (guards_track _ 0 [] (phase1_all_guards auth ts)).
+    rewrite track_app, (phase2_track ts 0 a b E).
+    apply (guards_track _ _ [] Hg).
+  Qed.
 End Plan.
 
 Section Sem.
@@ -145,14 +153,29 @@ Proof.
   split; [destruct o; reflexivity|reflexivity].
 Qed.
 
+(* the same for the declaration route *)
+Theorem ctx_exec_restores_decl {S : Type} (stp : S -> op -> S * out) addn len L base s auth ts :
+  let r := ctx_exec stp addn len L base s [] (compile_decl auth ts) in
+  hd L (snd r) = L /\ fst r = exec stp addn len L base s (compile_decl auth ts).
+Proof.
+  cbn zeta. pose proof (ctx_exec_track stp addn len L base (compile_decl auth ts) s [] [] (compile_decl_track auth ts)) as H.
+  cbn [map] in H. rewrite H. clear H.
+  cbn [fst snd]. destruct (exec stp addn len L base s (compile_decl auth ts)) as [s' o]. cbn [fst snd map].
+  split; [destruct o; reflexivity|reflexivity].
+Qed.
+
 Lemma cstep_fixed cfg st x :
   cstep cfg (st, []) x = ((fst (xstep cfg st x), []), snd (xstep cfg st x), xop_loader x).
 Proof.
-  destruct x as [o|l ts].
+  destruct x as [o|l ts|l ts].
   - destruct o; cbn [cstep xstep via op_loader xop_loader]; destruct (step cfg st _) as [st' r]; reflexivity.
   - cbn [cstep xstep via xop_loader]. destruct (Nat.ltb l (length st)); [|reflexivity].
     destruct (ctx_exec_restores (step cfg) add_node (@length lnode) l (length st) st (cfg_auth cfg) ts) as [Hc He].
     destruct (ctx_exec (step cfg) add_node (@length lnode) l (length st) st [] (compile (cfg_auth cfg) ts)) as [[st' a] top].
+    cbn [fst snd] in Hc, He. rewrite Hc, <- He. unfold tab_set. rewrite Nat.eqb_refl. reflexivity.
+  - cbn [cstep xstep via xop_loader]. destruct (Nat.ltb l (length st)); [|reflexivity].
+    destruct (ctx_exec_restores_decl (step cfg) add_node (@length lnode) l (length st) st (cfg_auth cfg) ts) as [Hc He].
+    destruct (ctx_exec (step cfg) add_node (@length lnode) l (length st) st [] (compile_decl (cfg_auth cfg) ts)) as [[st' a] top].
     cbn [fst snd] in Hc, He. rewrite Hc, <- He. unfold tab_set. rewrite Nat.eqb_refl. reflexivity.
 Qed.
 
